@@ -179,9 +179,9 @@ def diagnose(a, b, kinds=None):
     return "unknown", "schemas compare unequal"
 
 
-def round_trips(s, base, merged_opts, fmts, kinds=None):
+def round_trips(s, base, merged_opts, fmts, kinds=None, strings=True):
     """save/reload s in every format; returns (problems, {(merged, fmt): path}, reloaded objects)"""
-    from hed.schema import load_schema
+    from hed.schema import load_schema, from_string
     prob, paths, objs = [], {}, {}
     for merged in merged_opts:
         ms = "merged" if merged else "unmerged"
@@ -202,6 +202,18 @@ def round_trips(s, base, merged_opts, fmts, kinds=None):
             if not (r == s):
                 k, text = diagnose(s, r, kinds)
                 prob.append(("%s:%s:neq:%s" % (fmt, k, ms), "saved as %s (%s) and reloaded: not equal to the original: %s" % (fmt, ms, text)))
+            elif fmt in ("xml", "mediawiki") and strings:
+                # the same format through strings (get_as_*_string / from_string): another reader entry point
+                try:
+                    txt = s.get_as_xml_string(merged) if fmt == "xml" else s.get_as_mediawiki_string(merged)
+                    r2 = from_string(txt, schema_format="." + fmt)
+                    if not (r2 == s):
+                        k, text = diagnose(s, r2, kinds)
+                        prob.append(("%s-string:%s:neq:%s" % (fmt, k, ms), "written to a %s string (%s) and read back with from_string: "
+                                     "not equal to the original: %s" % (fmt, ms, text)))
+                except Exception as ex:  # noqa
+                    prob.append(("%s-string:raises:%s:%s" % (fmt, _exc_key(ex), ms), "the %s string (%s) cannot be read back with "
+                                 "from_string: %s" % (fmt, ms, _exc(ex))))
         # formats agree with one another (reported separately only when each reload equals the original, i.e. when the
         # disagreement is not already reported above)
         got = [f for f in fmts if (merged, f) in objs and objs[(merged, f)] == s]
@@ -293,6 +305,9 @@ _PUNCT = [".", ";", ":", "-", "(", ")", "/", "%", "+", "?", "!", "_", "'", ","]
 _UNI_RANGES = [(0xC0, 0xD6), (0xD8, 0xF6), (0xF8, 0xFF), (0x391, 0x3A1), (0x3B1, 0x3C9), (0x410, 0x44F), (0x5D0, 0x5EA),
                (0x3041, 0x3060), (0x4E00, 0x4E40), (0x1F600, 0x1F620)]
 _UNI = [chr(c) for a, b in _UNI_RANGES for c in range(a, b + 1) if chr(c).isprintable()] + list("€→≤°µ…—“”‘’")
+# non-ASCII characters the description rules accept although they are separators / invisible: what a line is, or where a
+# field ends, must not depend on them (NEL, LINE SEPARATOR, PARAGRAPH SEPARATOR, no-break space, zero-width space)
+_UNI_ODD = ["\u0085", "\u2028", "\u2029", "\u00a0", "\u200b"]
 _MARK = ["<", ">", "&", "*", "#", "|", "\\", "~", "@", "$", "^", "`", "'''", "&amp;", "<b>", "</i>", "!#", "**", "''", "\\n",
          "%s", "&lt;", "<!--", "-->", "//", "=="]
 DESC_KINDS = ("plain", "eq", "quote", "qstart", "unicode", "markup")
@@ -300,7 +315,11 @@ DESC_KINDS = ("plain", "eq", "quote", "qstart", "unicode", "markup")
 
 def _word(rng, uni=False):
     if uni:
-        return "".join(rng.choice(_UNI) for _ in range(rng.randint(1, 6)))
+        w = "".join(rng.choice(_UNI) for _ in range(rng.randint(1, 6)))
+        if rng.random() < 0.25:
+            k = rng.randrange(1, len(w)) if len(w) > 1 else 1
+            w = w[:k] + rng.choice(_UNI_ODD) + w[k:] + rng.choice(_UNI)
+        return w
     if rng.random() < 0.5:
         return rng.choice(_WORDS)
     return "".join(rng.choice("abcdefghijklmnopqrstuvwxyzABCDEFGHIJKLMNOPQRSTUVWXYZ0123456789") for _ in range(rng.randint(1, 7)))
@@ -555,8 +574,16 @@ def execute(item):
         try:
             s = from_string(conc["text"], schema_format=".mediawiki", name="c05-generated")
         except Exception as ex:  # noqa
-            res["drift"].append(("vehicle-load-failed", "generated MediaWiki text does not load: %s" % _exc(ex)))
-            return res
+            # the vehicle is only a way to obtain the schema object: try the other reader entry point (a file) before giving up
+            try:
+                vp = os.path.join(work, "vehicle.mediawiki")
+                with open(vp, "w", encoding="utf-8", newline="\n") as fh:
+                    fh.write(conc["text"])
+                s = load_schema(vp)
+                res["drift"].append(("vehicle-string-load-failed", "generated MediaWiki text loads from a file but not with from_string: %s" % _exc(ex)))
+            except Exception as ex2:  # noqa
+                res["drift"].append(("vehicle-load-failed", "generated MediaWiki text does not load: %s / %s" % (_exc(ex), _exc(ex2))))
+                return res
         errs = s.check_compliance(check_for_warnings=True)
         if errs:      # outside the statement (it speaks of schemas that pass compliance): not judged
             res["drift"].append(("vehicle-noncompliant", "generated schema has compliance issues %s" % sorted({e["code"] for e in errs})))
